@@ -6,13 +6,13 @@ CONSTANTS
   DevLimiterNoComplete = FALSE
   DevPopOldest = FALSE
   DevTruncAll = FALSE
-  DevSwallowBreak = TRUE
+  DevSwallowBreak = FALSE
   DevSplitLast = FALSE
   DevSortBreakStops = FALSE
   DevSortEmptyNoComplete = FALSE
   DevSpaceCountsKeyless = FALSE
   Files = 2
-  DevBreakEndsFileOnly = FALSE
+  DevBreakEndsFileOnly = TRUE
 VIEW View
 CHECK_DEADLOCK FALSE
-INVARIANT StopsReading
+INVARIANT BreakEndsReading
